@@ -13,7 +13,13 @@ All schedules with a bounded number of preemptions (quick: 2 for two callers, 1 
 an operation or at a blocked lock are free; depth-first over the scheduler's choice points, by re-execution) of 2 puts, 2 puts + 1 get, 3 puts on
 queues of `maxSize` 1..3 that are empty / one short of full / full are enumerated.
 
-Oracle = the model's sequential queue semantics (`PSO.Queue.FastQueue`, driver `queue` op `fq`): the observed answers
+A second family explores the hand-over of the RESULT: a logical caller runs a real synchronous call (real wrapper,
+real `AsyncResult.onResult`), a logical tick thread invokes the callback; `AsyncResult.event` is an instrumented event
+whose `set()` and `wait()` are yield points, and every attribute store of `onResult` (`result`, `error`) is one too — so
+"the caller is woken before result and error are stored" is among the explored schedules.  Oracle = the property: the
+call returns the result of its own command, or raises the failure reason it was answered with.
+
+Oracle of the queue family = the model's sequential queue semantics (`PSO.Queue.FastQueue`, driver `queue` op `fq`): the observed answers
 (accepted / `Queue.Full`, value got / `Queue.Empty`) together with the final queue content must be what SOME sequential
 order of the same operations produces on the model (linearizability; all operations are concurrent).  In the property's
 words: every put is accepted and later got exactly once, in FIFO order, or answered QUEUE_FULL; never more than the
@@ -300,6 +306,131 @@ def explore(run_once, limit, max_preempt):
 
 
 # ---------------------------------------------------------------------------------------------
+# family R: hand-over of the result through AsyncResult (event.set vs the stores of onResult)
+# ---------------------------------------------------------------------------------------------
+class SchedEvent(object):
+    """threading.Event for logical threads: `set` and `wait` are yield points, `wait` blocks the logical thread"""
+
+    def __init__(self, sched):
+        self.sched = sched
+        self.flag = False
+
+    @property
+    def owner(self):                       # LThread.runnable(): blocked while `owner` is not None
+        return None if self.flag else "unset"
+
+    def is_set(self):
+        return self.flag
+
+    def set(self):
+        self.sched.yield_point("event.set")
+        self.flag = True
+
+    def wait(self, timeout=None):
+        s = self.sched
+        t = s.current()
+        if t is None:
+            return self.flag
+        s.yield_point("event.wait")
+        while not self.flag:
+            t.waiting_for = self
+            s.back.set()
+            t.go.wait()
+            t.go.clear()
+        t.waiting_for = None
+        s.trace.append((t.name, "event.woken"))
+        return True
+
+
+class Slot(object):
+    """the (command, callback) the caller handed to `_applyCommand`, picked up by the logical tick thread"""
+
+    def __init__(self):
+        self.value = None
+
+    @property
+    def owner(self):
+        return None if self.value is not None else "empty"
+
+
+def build_result_family(so):
+    from pysyncobj import SyncObjConf
+    RecTransport = qc.make_transport_class(so)
+
+    Base = so.AsyncResult                  # (so.AsyncResult itself is replaced by AR during a run)
+
+    class AR(Base):                        # the REAL onResult; its event and its attribute stores are instrumented
+        sched = None
+
+        def __init__(self):
+            Base.__init__(self)
+            object.__setattr__(self, "event", SchedEvent(AR.sched))
+            object.__setattr__(self, "_armed", True)
+
+        def __setattr__(self, name, value):
+            if self.__dict__.get("_armed") and name in ("result", "error") and AR.sched is not None:
+                AR.sched.yield_point("onResult.store." + name)
+            object.__setattr__(self, name, value)
+
+    class Obj(so.SyncObj):
+        def __init__(self):
+            super(Obj, self).__init__("n0:1", [], SyncObjConf(autoTick=False), transportClass=RecTransport)
+
+        @so.replicated_sync
+        def m_s(self, x):
+            return x
+
+        @so.replicated
+        def m_r(self, x):
+            return x
+
+    return AR, Obj
+
+
+def run_result(so, AR, o, case, choices):
+    """case = (method, kwargs, (res, err)): one sync call, answered once by the logical tick thread"""
+    meth, kw, (res, err) = case
+    s = Sched(choices)
+    AR.sched = s
+    slot = Slot()
+
+    def spy(cmd, callback, commandType=None):
+        s.yield_point("applyCommand")
+        slot.value = (cmd, callback)
+
+    o._applyCommand = spy
+    old = so.AsyncResult
+    so.AsyncResult = AR
+
+    def caller():
+        try:
+            return ["value", getattr(o, meth)(41, **dict(kw))]
+        except so.SyncObjException as e:
+            return ["timeout"] if e.errorCode == "Timeout" else ["raised", e.errorCode]
+
+    def tick():
+        t = s.current()
+        while slot.value is None:
+            t.waiting_for = slot
+            s.back.set()
+            t.go.wait()
+            t.go.clear()
+        t.waiting_for = None
+        slot.value[1](res, err)
+        return "answered"
+    ts = [s.spawn("caller", caller), s.spawn("tick", tick)]
+    try:
+        s.run()
+    finally:
+        so.AsyncResult = old
+        AR.sched = None
+        o._applyCommand = lambda *a, **k: None
+    obs = {"ret": ts[0].result if ts[0].error is None else ["exc", ts[0].error], "tick": ts[1].result if ts[1].error is None
+           else "exc:" + ts[1].error, "deadlock": s.deadlock}
+    return s, obs
+
+
+# ---------------------------------------------------------------------------------------------
 # oracle: the model's sequential semantics over all orders
 # ---------------------------------------------------------------------------------------------
 def model_outcomes(ctx, cfgs):
@@ -429,11 +560,45 @@ def _run(ctx):
                 cov["configs_apply"] += 1
         finally:
             qc.close_node(o)
+    # family R: the result hand-over
+    with qc.real_runtime(so):
+        AR, ObjR = build_result_family(so)
+        oR = ObjR()
+        try:
+            rcases = [("m_s", {}, (41, 0)), ("m_s", {}, (None, 5)), ("m_r", {"sync": True, "timeout": 3}, (41, 0)),
+                      ("m_s", {"timeout": 2}, (None, 3)), ("m_r", {"sync": True}, (None, 4))]
+            for case in rcases:
+                meth, kw, (r0, e0) = case
+                want = ["value", r0] if e0 == 0 else ["raised", e0]
+                for s, obs in explore(lambda ch, case=case: run_result(so, AR, oR, case, ch), 500, 6):
+                    res["cases"] += 1
+                    seen.add(qc.canon(["R", meth, sorted(kw), [r0, e0], s.taken]))
+                    cov["schedules_result"] += 1
+                    if any(a[1] == "event.set" for a in s.trace):
+                        cov["result_event_set_seen"] += 1
+                    tr = [a[1] for a in s.trace]
+                    if "event.woken" in tr and "event.set" in tr and tr.index("event.woken") < max(
+                            [i for i, x in enumerate(tr) if x.startswith("onResult.store")] or [-1]):
+                        cov["result_woken_before_stores"] += 1
+                    if (obs["ret"] != want or obs["deadlock"]) and len(res["violations"]) < 3:
+                        sig = "asyncresult.interleaving:%s" % ("deadlock" if obs["deadlock"] else
+                                                               "sync-call-did-not-get-the-answer-of-its-own-command")
+                        if sig not in [v["signature"] for v in res["violations"]]:
+                            res["violations"].append({
+                                "signature": sig,
+                                "what": "%s(41%s) answered (%r, %r): the call gave %r instead of %r; schedule %s"
+                                        % (meth, "".join(", %s=%r" % kv for kv in sorted(kw.items())), r0, e0, obs["ret"], want,
+                                           " ".join("%s:%s" % x for x in s.trace)),
+                                "replay": {"kind": "result", "case": [meth, kw, [r0, e0]], "choices": s.taken}})
+        finally:
+            oR._applyCommand = lambda *a, **k: None
+            qc.close_node(oR)
     res["distinct"] = len(seen)
     res["coverage"] = dict(cov)
     res["wall_s"] = round(time.time() - t0, 2)
     res["notes"] = "exhaustive schedules of the real FastQueue / _applyCommand under a logical-thread scheduler; oracle = model, all orders"
-    missed = [k for k in ("schedules", "lock_seen", "answer_ok", "answer_full", "answer_got", "answer_empty", "configs_apply")
+    missed = [k for k in ("schedules", "lock_seen", "answer_ok", "answer_full", "answer_got", "answer_empty", "configs_apply",
+                          "schedules_result", "result_event_set_seen")
               if not cov.get(k)]
     if missed and not res["violations"]:
         res["inconclusive"] = "coverage floor missed: " + ",".join(missed)
@@ -443,6 +608,17 @@ def _run(ctx):
 def replay(ctx, violation):
     so = qc.load(ctx)
     r = violation["replay"]
+    if r.get("kind") == "result":
+        with qc.real_runtime(so):
+            AR, ObjR = build_result_family(so)
+            oR = ObjR()
+            try:
+                meth, kw, (r0, e0) = r["case"]
+                s, obs = run_result(so, AR, oR, (meth, kw, (r0, e0)), r["choices"])
+            finally:
+                qc.close_node(oR)
+        want = ["value", r0] if e0 == 0 else ["raised", e0]
+        return {"violated": obs["ret"] != want, "observed": obs, "expected": want, "schedule": ["%s:%s" % x for x in s.trace]}
     cfg = {"max": r["cfg"]["max"], "fill": r["cfg"]["fill"], "ops": [tuple(o) for o in r["cfg"]["ops"]]}
     ok_set = model_outcomes(ctx, [cfg])[0]
     with qc.real_runtime(so), Patched() as fq:
